@@ -163,6 +163,30 @@ func PropC04(c *vs.Case, f Factory) error {
 			scn.Parent["spec"].(map[string]any)["selector"] = map[string]any{}
 		}
 	}
+	// a rolling controller whose hook labels the children after the selector of the parent it is shown: once the
+	// selector itself is edited, the calls made for older revisions come back with labels the parent no longer selects
+	selectorRollout := false
+	if variant == 0 && !scn.Cfg.GenerateSelector && len(scn.SelLabels) > 0 {
+		for _, ch := range scn.Cfg.Children {
+			if strings.HasPrefix(ch.Method, "Rolling") && c.Prob(1, 2) {
+				selectorRollout = true
+			}
+		}
+	}
+	if selectorRollout {
+		for i := range scn.Prog.Children {
+			scn.Prog.Children[i].LabelsFromSelector = true
+		}
+		scn.Cfg.FieldPaths = nil // the default: everything under spec is revisioned, the selector included
+		// the revisions are labelled from spec.template.metadata.labels: give those a second label, so that the
+		// selector can later move to it without losing the revisions
+		if tl, ok := getPath(scn.Parent, "spec.template.metadata.labels"); ok {
+			if tm, ok := tl.(map[string]any); ok {
+				tm["gen"] = "x"
+			}
+		}
+		c.Class("hook-labels-follow-the-selector-it-is-shown")
+	}
 	env, err := NewEnv(scn, f)
 	if err != nil {
 		return fmt.Errorf("harness: %v", err)
@@ -183,7 +207,40 @@ func PropC04(c *vs.Case, f Factory) error {
 	steps := 2 + c.Int(4)
 	for s := 0; s < steps; s++ {
 		// environment step on the live parent / revisions, possibly invisible to the cache
-		switch c.Weighted(5, 2, 2, 2, 2) {
+		envW := []int{5, 2, 2, 2, 2}
+		if selectorRollout {
+			envW = append(envW, 3)
+		}
+		switch c.Weighted(envW...) {
+		case 5: // the parent's selector is edited in place (a revisioned field like any other under spec)
+			env.W.Sim.ExtUpdate(scn.Cfg.ParentResource, scn.ParentNS(), scn.ParentName(), func(o map[string]any) {
+				// the selector moves from the hook-facing label to the other label the template carries, or back:
+				// the revisions (labelled from the template) match both, the children follow the selector in force
+				sel, _ := o["spec"].(map[string]any)["selector"].(map[string]any)
+				if sel == nil {
+					return
+				}
+				ml, _ := sel["matchLabels"].(map[string]any)
+				if _, onGen := ml["gen"]; onGen {
+					nl := map[string]any{}
+					for k, v := range scn.SelLabels {
+						nl[k] = v
+					}
+					sel["matchLabels"] = nl
+				} else {
+					sel["matchLabels"] = map[string]any{"gen": "x"}
+				}
+			})
+			log = append(log, "parent selector edited in place")
+			c.Class("env:parent-selector-edited")
+			if owned := env.OwnedChildren(); len(owned) > 0 && c.Bool() {
+				// ... and one of the children is gone: whoever still wants it has to create it anew
+				o := owned[c.Int(len(owned))]
+				d := env.W.Sim.DefByKind(o["apiVersion"].(string), o["kind"].(string))
+				env.W.Sim.ExtDelete(d.Resource, metaStr(o, "namespace"), metaStr(o, "name"), "")
+				log = append(log, "... and "+ObjID(o)+" deleted by someone")
+				c.Class("env:child-deleted-after-selector-edit")
+			}
 		case 4: // an owned child is relabelled so that it no longer matches: it has to be released
 			owned := env.OwnedChildren()
 			if len(owned) > 0 {
@@ -355,6 +412,9 @@ func PropC04(c *vs.Case, f Factory) error {
 					for _, o := range t.PreCache[res] {
 						if ControllerOf(o) != puid || env.selectorMatches(cachedParent, LabelsOf(o)) {
 							continue
+						}
+						if pns := metaStr(cachedParent, "namespace"); pns != "" && metaStr(o, "namespace") != pns {
+							continue // outside a namespaced parent's reach (it never sees, let alone releases, such an object)
 						}
 						live := env.W.Sim.Get(res, metaStr(o, "namespace"), metaStr(o, "name"))
 						if live == nil || metaStr(live, "uid") != metaStr(o, "uid") || env.selectorMatches(cachedParent, LabelsOf(live)) {
